@@ -1,12 +1,12 @@
 SPEC = {
     "id": "C01",
     "props_file": "Props/C01.v",
-    "gen": [],
+    "gen": ["muxsorts"],
     "streams": [
         {"name": "mux-c01", "cmd": "mux",
-         "args": {"quick": ["-mode", "c01", "-blocks", "20", "-runs", "4", "-tieruns", "3", "-tieblocks", "14"],
-                  "thorough": ["-mode", "c01", "-blocks", "200", "-runs", "6", "-tieruns", "6", "-tieblocks", "60"]},
-         "search_args": ["-mode", "c01", "-blocks", "40", "-runs", "8", "-tieruns", "6", "-tieblocks", "30"],
+         "args": {"quick": ["-mode", "c01", "-blocks", "20", "-runs", "4", "-tieruns", "3", "-tieblocks", "14", "-procruns", "1"],
+                  "thorough": ["-mode", "c01", "-blocks", "200", "-runs", "6", "-tieruns", "6", "-tieblocks", "60", "-procruns", "2"]},
+         "search_args": ["-mode", "c01", "-blocks", "40", "-runs", "8", "-tieruns", "6", "-tieblocks", "30", "-procruns", "1"],
          "timeout": 3600},
     ],
     "trusted_base": [
@@ -14,6 +14,8 @@ SPEC = {
         "harness/cmd/mux + harness/internal/muxdrv (plays CometBFT's role: InitChain/PrepareProposal/ProcessProposal/BeginBlock/DeliverTx/EndBlock/Commit/CheckTx against the real abci.ApplicationServer with the real beacon, governance, keymanager, registry, roothash, scheduler, staking, vault and supplementarysanity apps)",
         "verif-tagged go/consensus/cometbft/abci/export_verif.go (read-only views: dispatch order, proposal-cache snapshot and the two reuse conditions)",
         "the replica-vs-replica comparison in the harness (the property's own oracle): byte comparison of AppHash, per-tx code/codespace/data/gas/events, sorted validator updates, metadata body, begin/end events, full MKVS dumps",
+        "harness/cmd/gen muxsorts (go/ast reader: is the sort of map-collected keys still an unconditional statement in RuntimesToFinalize, stakingAddressMapToSliceByStake, distributeRewards, sortAddresses, EligibleEntities) feeding map_order_irrelevant",
+        "process-separated twins (re-exec of the harness binary per replica, JSON line protocol) for a subset of histories; thorough tier: the stream rebuilt with go build -race, data races inside oasis-core reported as findings",
         "vm_compute evaluation of Verif.Abci.Mux.run_case on the recorded cache decisions and dispatch orders (no extraction)",
         "modelled generically, not verified as code: the applications themselves (abstract deterministic functions in the theorems, real code in the harness), Go map iteration inside the apps, the MKVS (root = function of contents is C02), Badger, goroutine interleavings",
     ],
@@ -26,6 +28,63 @@ SPEC = {
 
 MANIFEST = {
     "technique": "Coq proof over a generic model of the ABCI multiplexer (all paths refine one reference execution; lifted to histories by induction) + four-way differential execution of seeded block histories on the real multiplexer with all real apps (different paths, local configs, backends, restarts, concurrent CheckTx/EstimateGas/queries/pruner)",
-    "level_text": "Theorems in coq/Props/C01.v hold for every instance of the generic multiplexer model (any state type, any deterministic applications, any decoder/auth handler): propose+cached, process-proposal, plain replay and restart-then-replay/process all equal the reference execution of the block on the committed state, also after arbitrary failed rounds that left a stale proposal cache (stale_rounds_harmless, up to a block-hash collision); outputs and committed state are equal for all local configurations and registration orders; lifted to arbitrary histories with interleaved CheckTx/simulation/pruning (replicas_agree); the proposer cache equals re-execution under the named commit-info hypothesis (refuted without it); dispatch order is the sorted name order. The tie to the code for the property itself is the harness: per seed a 4-validator genesis (plus election-tie histories: 8 validator entities with EQUAL escrow, MaxValidators 3-4, no rewards, an election every 2 blocks, so stake ties straddle the cutoff at every election), blocks of 0-8 staking/governance/registry/beacon transactions (70 % valid), epoch transitions, vote patterns, duplicate-vote evidence, executed by FOUR real replicas on different paths/configs/backends with background CheckTx/EstimateGas/historical queries, compared after every height; the model is tied to the code on the proposal-cache reuse decisions (isEqual/needsExecution/resetProposalIfChanged) and the dispatch order observed through a read-only hook.",
-    "level_note": "For C01 the applications are abstract in the Coq theorems: determinism of the REAL apps (map iteration order, reward/fee arithmetic, elections) is established only empirically by the replica comparison on the explored histories, not proved. The correspondence stream covers the cache decisions and app ordering only. Real goroutine interleavings, Badger and the MKVS are exercised, not modelled. Replicas run in one process (same Go map seed per process run; iteration order still varies per map instance).",
+    "level_text": "Theorems in coq/Props/C01.v hold for every instance of the generic multiplexer model (any state type, any deterministic applications, any decoder/auth handler): propose+cached, process-proposal, plain replay and restart-then-replay/process all equal the reference execution of the block on the committed state, also after arbitrary failed rounds that left a stale proposal cache (stale_rounds_harmless, up to a block-hash collision); outputs and committed state are equal for all local configurations and registration orders; lifted to arbitrary histories with interleaved CheckTx/simulation/pruning (replicas_agree) and with failed consensus rounds in between (replicas_agree_with_failed_rounds); the block functions that iterate Go maps (RuntimesToFinalize, stake-ordered election slice and cutoff, reward list, signing-eligible entities) are independent of the iteration order given the sort sites the generator reads from the source (map_order_irrelevant, lifted to blocks of a concrete ledger instance); the proposer cache equals re-execution under the named commit-info hypothesis (refuted without it); dispatch order is the sorted name order. The tie to the code for the property itself is the harness: per seed a 4-validator genesis (plus election-tie histories: 8 validator entities with EQUAL escrow, MaxValidators 3-4, no rewards, an election every 2 blocks, so stake ties straddle the cutoff at every election), blocks of 0-8 staking/governance/registry/beacon transactions (70 % valid), epoch transitions, vote patterns, duplicate-vote evidence, executed by FOUR real replicas on different paths/configs/backends with background CheckTx/EstimateGas/historical queries, compared after every height; the model is tied to the code on the proposal-cache reuse decisions (isEqual/needsExecution/resetProposalIfChanged) and the dispatch order observed through a read-only hook.",
+    "level_note": "For C01 the applications are abstract in the Coq theorems: determinism of the REAL apps (map iteration order, reward/fee arithmetic, elections) is established only empirically by the replica comparison on the explored histories, not proved. The correspondence stream covers the cache decisions and app ordering only. Real goroutine interleavings, Badger and the MKVS are exercised, not modelled. One standard and one election-tie history per quick run (two each in the thorough tier) additionally run every replica in its own OS process; the others are in-process (map iteration order still varies per map instance). map_order_irrelevant covers the listed sort sites only (found by reading the code, not by an exhaustive search for map iterations).",
 }
+
+
+# ---- thorough tier: the same stream built with the Go race detector ----
+# Data races inside oasis-core (mux / application state / pruner / storage) observed while
+# blocks execute concurrently with CheckTx, EstimateGas, historical queries and the pruner are
+# reported as findings keyed by the pair of racing functions (known_findings.json can list a
+# key as known). Races that involve only harness code are reported as harness failures.
+def post_streams(run):
+    import glob, json, os, re, subprocess, vcheck
+    if run.tier != "thorough" or run.replay:
+        return
+    root = vcheck.ROOT
+    outdir = os.path.join(run.work, "mux-c01-race")
+    os.makedirs(outdir, exist_ok=True)
+    build = ". %s/bin/env.sh; cd %s/harness && timeout 1800 $GO build -race -tags verif -o bin/mux-race ./cmd/mux" % (root, root)
+    r = subprocess.run(["bash", "-c", build], stdout=subprocess.PIPE, stderr=subprocess.STDOUT, text=True, env=vcheck.env())
+    if r.returncode != 0:
+        run.say("[R] race build not available (cgo/toolchain): " + r.stdout[-400:])
+        run.cov["streams"]["mux-c01-race"] = {"evaluations": 0, "note": "go build -race failed: " + r.stdout[-300:]}
+        return
+    e = vcheck.env()
+    e["GORACE"] = "halt_on_error=0 log_path=%s" % os.path.join(outdir, "race")
+    cmd = [os.path.join(root, "harness", "bin", "mux-race"), "-mode", "c01", "-seed", str(run.seed), "-out", outdir,
+           "-blocks", "40", "-runs", "3", "-tieruns", "1", "-tieblocks", "16", "-procruns", "0"]
+    r = subprocess.run(cmd, stdout=subprocess.PIPE, stderr=subprocess.STDOUT, text=True, env=e, cwd=run.work, timeout=3600)
+    sj = os.path.join(outdir, "summary.json")
+    if r.returncode != 0 or not os.path.exists(sj):
+        run.failures.append({"kind": "harness-run", "what": "race-detector build of the harness crashed (exit %s)" % r.returncode,
+                             "detail": r.stdout[-3000:], "broken": "stream mux-c01-race"})
+        return
+    summ = json.load(open(sj))
+    kf = vcheck.load_known(run.id)
+    races = {}
+    for path in glob.glob(os.path.join(outdir, "race.*")):
+        for blk in open(path).read().split("=================="):
+            if "DATA RACE" not in blk:
+                continue
+            tops = re.findall(r"(?:Write|Read|Previous write|Previous read) at \S+ by [^\n]*:\n  (\S+)\(\)\n\s+(\S+):(\d+)", blk)
+            if not tops:
+                continue
+            names = sorted(set(t[0].split("/")[-1] for t in tops))
+            in_repo = any("oasis-core/go/" in t[0] or "/go/consensus/" in t[1] or "/go/storage/" in t[1] for t in tops)
+            key = "C01:race:" + "|".join(names)
+            if key not in races:
+                races[key] = {"count": 0, "in_repo": in_repo, "sites": ["%s:%s" % (os.path.basename(t[1]), t[2]) for t in tops], "report": blk.strip()[:2500]}
+            races[key]["count"] += 1
+    summ.setdefault("findings", [])
+    for key, rc in sorted(races.items()):
+        if rc["in_repo"]:
+            summ["findings"].append({"key": key, "what": "data race between %s (%d reports) at %s" % (key[len("C01:race:"):], rc["count"], ", ".join(rc["sites"])),
+                                     "replay": {"race": key, "sites": rc["sites"], "report": rc["report"],
+                                                "how": "go build -race ./cmd/mux; GORACE=halt_on_error=0 mux-race -mode c01 -seed %d -blocks 40 -runs 3" % run.seed}})
+        else:
+            run.failures.append({"kind": "harness-run", "what": "data race inside the harness itself: " + key, "detail": rc["report"], "broken": "stream mux-c01-race"})
+    summ.setdefault("extra", {})["data_races"] = {k: v["count"] for k, v in races.items()}
+    run.say("[R] mux-c01-race: %d executions under the race detector, %d distinct data races: %s" % (summ["evaluations"], len(races), ", ".join(sorted(races)) or "none"))
+    run.account({"name": "mux-c01-race"}, summ, [], kf)
